@@ -217,6 +217,9 @@ def scripts(tier, seed, scale=1):
         for n in name_variants(sorted(set(listed + chain))):
             out.append(("nm:%s:%s" % (k.name, n), new + pre + ["y get 0 %s" % nm(n), "y set 0 %s %s" % (nm(n), hx("1")),
                                                                 "y get 0 %s" % nm(n), "y set 0 %s null" % nm(n), "y dump 0"]))
+        # the empty name with sources that carry no sibling: reset or refusal
+        for v in ("null", "nullstr", "-", hx(" "), hx("abc"), hx("0")):
+            out.append(("empty:%s:%s" % (k.name, v), new + pre + ["y set 0 x:- %s" % v, "y dump 0"]))
         # reset and copy
         out.append(("reset:%s" % k.name, new + pre + ["y reset 0", "y dump 0"]))
         out.append(("copy:%s" % k.name, new + pre + ["y new " + k.name, "y copy 1 0", "y dump 1"] +
@@ -277,8 +280,10 @@ def scripts(tier, seed, scale=1):
                 if r.random() < 0.3:
                     n = n[:r.randrange(1, len(n) + 1)]
                 lines.append("y get %d %s" % (i, nm(n)))
-            elif what < 0.85:
+            elif what < 0.83:
                 lines.append("y reset %d" % i)
+            elif what < 0.85:
+                lines.append("y set %d x:- %s" % (i, r.choice(["null", "nullstr", "-", hx("x")])))
             elif what < 0.97:
                 lines.append("y copy %d %d" % (i, r.randrange(len(objs))))
             else:
